@@ -3,14 +3,17 @@
     behaviour and the output stage (any per-frame map [o_out ch], in particular kira's: clamp,
     1 channel (l + r) / 2, >= 2 channels l, r and silence on the rest).  No algebraic law is
     assumed about the arithmetic, so the equalities are bit-for-bit for IEEE floats. *)
-From Coq Require Import List Arith Bool PeanoNat.
-From KV Require Import C02.Model C02.ProofsList C02.ProofsRefine C02.ProofsCor C11.Proofs.
-From KV Require C11.Examples.
+From Coq Require Import ZArith QArith List Arith Bool PeanoNat.
+From KV Require Import Base.IEEE Base.Outcome Base.Num C19.Model C06.Model C13.ModelOps C13.ModelTree.
+From KV Require Import C02.Model C02.ProofsList C02.ProofsRefine C02.ProofsCor C02.ProofsLog C11.Proofs.
+From KV Require Import C11.InstancesFx C11.InstancesSnd C11.InstancesEnv C11.Instances C11.InstancesB64 C11.InstancesStop.
+From KV Require C04.Model C11.Examples C11.InstancesEx.
 Import ListNotations.
+Close Scope Q_scope.
 
 (** Rendered audio does not depend on buffer sizes: if every sound is a frame-sequential source
-    ([sound_seq], discharged for kira's sounds by C04 / C09), every effect a frame-sequential
-    transducer ([effect_seq], discharged for the built-in effects by C13), all track parameters
+    ([sound_seq]), every effect a frame-sequential transducer ([effect_seq]) — both are discharged
+    below for C04's static sound and C13's effect tree ([kira_hypotheses_hold]) —, all track parameters
     are constant ([ctl_steady]) and no clock / modulator / listener is in play ([res_steady]), then
     for every two configurations (internal buffer size b, callback sizes cbs) and (b', cbs') with
     b, b' >= 1 and the same total number of frames, the buffer-level renderer produces the same
@@ -59,3 +62,150 @@ Theorem callback_chunks_any :
   forall b n : nat, 1 <= b ->
     Forall (fun m => 1 <= m <= b) (chunk_sizes b n) /\ list_sum (chunk_sizes b n) = n.
 Proof. exact chunk_sizes_spec. Qed.
+
+(** * The hypotheses discharged: the kira instance (C11/Instances*.v)
+
+    [kira_ops K interp cast fone fuel clamp1] is the [ops] made of C13's stereo frames and effect
+    tree (driven by C13's [process]), C04's static sound (driven frame by frame by C04's
+    [frame_step] with a fixed rate), constant track / route volumes, no pause, `Info` =
+    (dt, internal buffer size handed to [Effect::init]).  The sample type [F] with its operations,
+    the literals, the resampler's interpolation, the casts and the time type [T] are universally
+    quantified: no law about them is used. *)
+
+(** the four hypotheses of [render_partition_independent_any] hold of the kira instance *)
+Theorem kira_hypotheses_hold :
+  forall (F : Type) (OPS : Ops F) (K : consts F) (T : Type) (NT : Num T)
+         (interp : frame F -> frame F -> frame F -> frame F -> F -> frame F)
+         (cast : T -> F) (fone : F) (fuel : nat) (clamp1 : F -> F),
+    let KO := kira_ops K interp cast fone fuel clamp1 in
+    sound_seq KO /\ effect_seq KO /\ ctl_steady KO /\ res_steady KO.
+Proof. exact (@kira_hypotheses). Qed.
+
+(** The closed corollary: any scene of static sounds and built-in effects (sub-tracks nested at
+    will, sends, effect chains, delays with nested feedback effects), every parameter fixed, no
+    command: two configurations (internal buffer size b, callback sizes cbs) and (b', cbs') with
+    the same total number of frames render the same device samples, bit for bit, and end in the
+    same state — whatever internal buffer sizes [Tb], [Tb'] the effects were init'ed with
+    (kira: [Tb = b], [Tb' = b']). *)
+Theorem render_partition_independent_kira :
+  forall (F : Type) (OPS : Ops F) (K : consts F) (T : Type) (NT : Num T)
+         (interp : frame F -> frame F -> frame F -> frame F -> F -> frame F)
+         (cast : T -> F) (fone : F) (fuel : nat) (clamp1 : F -> F),
+    let KO := kira_ops K interp cast fone fuel clamp1 in
+    forall (ch b b' : nat) (cbs cbs' : list nat) (dt : T) (Tb Tb' : nat) (sx : smixer KO),
+      1 <= b -> 1 <= b' -> NoDup (map fst (sx_sends KO sx)) -> list_sum cbs = list_sum cbs' ->
+      snd (run_callbacks KO ch (conc_renderer KO b (dt, Tb) sx) cbs) =
+      snd (run_callbacks KO ch (conc_renderer KO b' (dt, Tb') sx) cbs') /\
+      abs_mixer KO (r_mixer KO (fst (run_callbacks KO ch (conc_renderer KO b (dt, Tb) sx) cbs))) =
+      abs_mixer KO (r_mixer KO (fst (run_callbacks KO ch (conc_renderer KO b' (dt, Tb') sx) cbs'))).
+Proof. exact (@render_partition_independent_kira_gen). Qed.
+
+(** The effect component IS C13's code: on a well-formed state ([wf]: what [init] makes, preserved)
+    and a slice that fits the internal buffer, [o_fx] is one call of C13's [process], which
+    returns [Ok]; the effect's parameters stay, the new state is well-formed. *)
+Theorem kira_effect_is_process :
+  forall (F : Type) (OPS : Ops F) (K : consts F) (T : Type) (NT : Num T)
+         (interp : frame F -> frame F -> frame F -> frame F -> F -> frame F)
+         (cast : T -> F) (fone : F) (fuel : nat) (clamp1 : F -> F),
+    let KO := kira_ops K interp cast fone fuel clamp1 in
+    forall (dt : T) (Tb : nat) (e : effect F) (s : estate F) (xs : list (frame F)),
+      wf e s = true -> length xs <= Tb ->
+      process K Tb e s xs = Ok (snd (fst (o_fx KO (dt, Tb) (e, s) xs)), snd (o_fx KO (dt, Tb) (e, s) xs)) /\
+      fst (fst (o_fx KO (dt, Tb) (e, s) xs)) = e /\
+      wf e (snd (fst (o_fx KO (dt, Tb) (e, s) xs))) = true.
+Proof. exact (@kira_fx_is_process). Qed.
+
+(** ... on ANY slice it is C13's [process] applied to the pieces of [Tb] frames (never a panic) ... *)
+Theorem kira_effect_is_process_slices :
+  forall (F : Type) (OPS : Ops F) (K : consts F) (Tb : nat) (e : effect F) (s : estate F) (xs : list (frame F)),
+    wf e s = true -> 1 <= Tb ->
+    process_slices K Tb e s (slices Tb xs) = Ok (snd (fst (kfx K Tb (e, s) xs)), snd (kfx K Tb (e, s) xs)).
+Proof. exact (@kfx_is_process_slices). Qed.
+
+(** ... and fitting slices are all it sees: in a run with internal buffer size b every sound and
+    every effect of the scene is called on exactly the chunk sequence b, .., b, remainder of each
+    callback (C02's call logs for the kira instance), each chunk of 1..b frames. *)
+Theorem kira_slices_fit :
+  forall (F : Type) (OPS : Ops F) (K : consts F) (T : Type) (NT : Num T)
+         (interp : frame F -> frame F -> frame F -> frame F -> F -> frame F)
+         (cast : T -> F) (fone : F) (fuel : nat) (clamp1 : F -> F),
+    let KO := kira_ops K interp cast fone fuel clamp1 in
+    forall (ch b : nat) (res : T * nat) (sx : smixer (logged KO)) (cbs : list nat),
+      1 <= b -> NoDup (map fst (sx_sends (logged KO) sx)) ->
+      let ms := concat (map (chunk_sizes b) cbs) in
+      mlogs_of KO (abs_mixer (logged KO)
+        (r_mixer (logged KO) (fst (run_callbacks (logged KO) ch (conc_renderer (logged KO) b res sx) cbs))))
+      = map_mlogs (fun l => l ++ ms) (mlogs_of KO sx)
+      /\ Forall (fun m => 1 <= m <= b) ms.
+Proof. exact (@Instances.kira_slices_fit). Qed.
+
+(** The sound component IS C04's code, binary64 time: with a fixed, idle rate parameter
+    ([rate_steady]) on every chunk (of fewer than 2^53 frames) that C04's [process] completes with
+    the sound still playing, [kiter] (= [o_snd] of the kira instance) returns the same state and the
+    same frames ... *)
+Theorem kira_sound_is_process_f64 :
+  forall (A : Type) (azero : A) (F : Type) (ascale : A -> F -> A) (fone : F) (fuel : nat)
+         (powf : f64 -> f64 -> f64) (interp : A -> A -> A -> A -> F -> A) (cast : f64 -> F)
+         (s s' : C04.StaticSound.ssound f64 A) (n : nat) (dt : f64) (l : list A),
+    rate_steady A s -> (Z.of_nat n < 2 ^ 53)%Z ->
+    C04.StaticSound.process powf A azero F interp cast ascale fone fuel s (Z.of_nat n) dt = Ok (s', l) ->
+    C04.StaticSound.s_stopped s' = false ->
+    kiter A azero F interp cast ascale fone fuel dt n (Some s) = (Some s', l).
+Proof. exact kiter_is_process_f64. Qed.
+
+(** ... the same in exact arithmetic, for every chunk length ... *)
+Theorem kira_sound_is_process_Q :
+  forall (A : Type) (azero : A) (F : Type) (ascale : A -> F -> A) (fone : F) (fuel : nat)
+         (powf : Q -> Q -> Q) (interp : A -> A -> A -> A -> F -> A) (cast : Q -> F)
+         (s s' : C04.StaticSound.ssound Q A) (n : nat) (dt : Q) (l : list A),
+    rate_steady A s ->
+    C04.StaticSound.process powf A azero F interp cast ascale fone fuel s (Z.of_nat n) dt = Ok (s', l) ->
+    C04.StaticSound.s_stopped s' = false ->
+    kiter A azero F interp cast ascale fone fuel dt n (Some s) = (Some s', l).
+Proof. exact kiter_is_process_Q. Qed.
+
+(** ... and once the sound has stopped both give silence and leave the state alone (any number type). *)
+Theorem kira_sound_is_process_stopped :
+  forall (T : Type) (NT : Num T) (ND : NumDur T) (powf : T -> T -> T)
+         (A : Type) (azero : A) (F : Type) (interp : A -> A -> A -> A -> F -> A) (cast : T -> F)
+         (ascale : A -> F -> A) (fone : F) (fuel : nat)
+         (s : C04.StaticSound.ssound T A) (n : nat) (dt : T),
+    rate_steady A s -> C04.StaticSound.s_stopped s = true ->
+    C04.StaticSound.process powf A azero F interp cast ascale fone fuel s (Z.of_nat n) dt = Ok (s, repeat azero n) /\
+    kiter A azero F interp cast ascale fone fuel dt n (Some s) = (Some s, repeat azero n).
+Proof. exact (@kiter_is_process_stopped). Qed.
+
+(** The sequentiality lemma for C04's per-frame loop itself: with a fixed rate, n + m frames in
+    one call = n frames, then m frames (same frames, same final state, same failure if any). *)
+Theorem static_sound_frames_loop_sequential_f64 :
+  forall (A : Type) (azero : A) (F : Type) (ascale : A -> F -> A) (fone : F) (fuel : nat)
+         (interp : A -> A -> A -> A -> F -> A) (cast : f64 -> F)
+         (s : C04.StaticSound.ssound f64 A) (n m : nat) (dt : f64),
+    rate_steady A s -> (Z.of_nat (n + m) < 2 ^ 53)%Z ->
+    C04.StaticSound.frames_loop A azero F interp cast ascale fone fuel (n + m) 0 (Z.of_nat (n + m)) dt s =
+    (let! (s1, l1) := C04.StaticSound.frames_loop A azero F interp cast ascale fone fuel n 0 (Z.of_nat n) dt s in
+     let! (s2, l2) := C04.StaticSound.frames_loop A azero F interp cast ascale fone fuel m 0 (Z.of_nat m) dt s1 in
+     Ok (s2, l1 ++ l2)).
+Proof. exact frames_loop_steady_app_f64. Qed.
+
+(** The exact steadiness condition, in binary64: for every frame i of a chunk of fewer than 2^53
+    frames a fixed parameter contributes [interpolated_value(1)] — (i + 1) / len is finite and
+    positive.  (A tweening parameter does not: [increment_of] reads (i + 1) / len, so the premise
+    "all parameters constant" is needed.) *)
+Theorem fixed_rate_irrelevant_f64 :
+  forall (r : f64) (i num : Z), (0 <= i < num)%Z -> (num <= 2 ^ 53 - 1)%Z ->
+    lerp r r (ndiv (nofZ (i + 1)) (nofZ num)) = lerp r r n1.
+Proof. exact fixed_rate_f64. Qed.
+
+(** What is NOT sequential in C04's [process]: the STATE after the chunk in which a sound stops.
+    A 3-frame sound at rate 1.5 asked for 6 frames at once or for 3 + 3: same frames, both
+    Stopped, but [fractional_position] 0 against 1/2 (the single call keeps stepping the stopped
+    sound to the end of its chunk).  Not audible; the kira instance freezes a stopped sound. *)
+Theorem static_sound_stop_chunk_state_witness :
+  match C04.StaticSound.sound_new C04.Model.frameQ C04.Interp.frame_zero 50%nat stop_data with
+  | Ok s => rate_steady C04.Model.frameQ s /\ C04.StaticSound.s_stopped s = false
+  | _ => False
+  end /\
+  exists l : list C04.Model.frameQ,
+    stop_run [6%Z] = Some (true, 0%Q, l) /\ stop_run [3%Z; 3%Z] = Some (true, (1 # 2)%Q, l).
+Proof. exact process_stop_chunk_state_witness. Qed.
